@@ -30,7 +30,7 @@ ASSUMPTIONS = [
 ]
 REQUIRED_COUNTERS = [
     "accept", "reject", "route.direct", "route.file", "decided.true_by_model", "decided.false_by_model",
-    "jsonschema.agree",
+    "jsonschema.agree", "format.registered_mid_run", "format.custom_decided",
 ] + [f"kw.{k}" for k in (
     "type", "enum", "const", "minimum", "maximum", "exclusiveMinimum", "exclusiveMaximum", "multipleOf",
     "minLength", "maxLength", "pattern", "format", "items", "additionalItems", "minItems", "maxItems",
@@ -98,9 +98,16 @@ def has_float_integer(value):
     return False
 
 
+CUSTOM_FORMATS = {}
+
+
+def even_length(value):
+    return len(value) % 2 == 0
+
+
 def judge(ctx, sut, element, schema, root, value, route, tag):
     """Compare the real outcome of one call with the model's verdict set."""
-    allowed = refmodel.verdicts(schema, value, root, curated=gv.CURATED)
+    allowed = refmodel.verdicts(schema, value, root, curated=gv.CURATED, custom=CUSTOM_FORMATS)
     value_before = canon(value)
     outcome, _result, exc = sut.call(element, value)
     ctx.evaluation()
@@ -128,6 +135,22 @@ def judge(ctx, sut, element, schema, root, value, route, tag):
         return
     want = next(iter(allowed))
     ctx.count("decided.true_by_model" if want else "decided.false_by_model")
+    if CUSTOM_FORMATS and isinstance(value, str) and '"my-format"' in json.dumps(schema):
+        ctx.count("format.custom_decided")
+    if ctx.rng.random() < 0.12 and isinstance(schema, dict):
+        # evidence that values are aimed: which root-level keywords DECIDE the verdict of this case
+        # (the model's verdict flips when the keyword alone is removed)
+        for key in list(schema):
+            if key in ("title", "description", "default", "definitions"):
+                continue
+            reduced = {k: v for k, v in schema.items() if k != key}
+            try:
+                other = refmodel.verdicts(reduced, value, root if root is not schema else reduced,
+                                          curated=gv.CURATED, custom=CUSTOM_FORMATS)
+            except Exception:  # pylint: disable=broad-except
+                continue
+            if other == {not want}:
+                ctx.count(f"decisive.{key}.{'accepting' if want else 'rejecting'}")
     size = gs.size_of(schema)
     if size[0] >= 2 or size[1] >= 1:
         ctx.nontrivial(canon([schema, value]))
@@ -179,7 +202,7 @@ def classify(schema, root, value, got):
     if any(k in text for k in ('"const"', '"enum"', '"uniqueItems"')):
         try:
             conflated = refmodel.verdicts(
-                schema, value, root, curated=gv.CURATED, nested_bool_conflation=True
+                schema, value, root, curated=gv.CURATED, nested_bool_conflation=True, custom=CUSTOM_FORMATS
             )
         except Exception:  # pylint: disable=broad-except
             conflated = set()
@@ -252,7 +275,20 @@ def one_schema(ctx, sut, idx):
 def run_shard(ctx):
     from vlib import sut  # pylint: disable=import-outside-toplevel
 
-    for idx in range(ctx.params["schemas"]):
+    from statham.schema.validation.format import format_checker  # pylint: disable=import-outside-toplevel
+
+    total = ctx.params["schemas"]
+    for idx in range(total):
+        if idx == total // 3:
+            # "only registered string formats are checked": from here on `my-format` IS registered (strings
+            # validated under that name earlier in this process were accepted with a warning)
+            format_checker.register("my-format")(even_length)
+            CUSTOM_FORMATS["my-format"] = even_length
+            ctx.count("format.registered_mid_run")
+        if idx == (2 * total) // 3:
+            format_checker.register("my-format")(lambda value: not even_length(value))
+            CUSTOM_FORMATS["my-format"] = lambda value: not even_length(value)
+            ctx.count("format.reregistered_mid_run")
         one_schema(ctx, sut, idx)
 
 
